@@ -80,6 +80,113 @@ CHECKS.update({
              "outside. Bounded: templates T1-T4,T7 with up to all bounds symbolic. " + NOTE_COMMON, ref="4/C09"),
 })
 
+CHECKS.update({
+    "C01": dict(
+        text="Histories of public operations (31 operations x argument shapes incl. raising variants, enter/exit) on a model whose "
+             "symbolic reaction has symbolic stoichiometric coefficients and bounds; new numeric arguments are fresh symbolic reals. "
+             "After every step the LP recorded by the stub is proved to be exactly the split encoding of the flux-balance problem of the "
+             "Python objects: one forward/reverse pair per reaction whose net range equals the reaction bounds (+-inf structurally, no "
+             "float infinities), one equality row per metabolite with exactly the current coefficients, objective = reported "
+             "coefficients and direction, nothing else except declared user constraints/variables.",
+        note="Bounded: histories of length 1 (full alphabet), 2 (sub-alphabet quick, full thorough), 3 (sub-alphabet thorough); one "
+             "symbolic reaction. optlang's translation to GLPK, solver cloning and the GLPK text-format copy are trusted base, "
+             "cross-checked on witness replays (GLPK problem read back through optlang); 'glpk_exact' and solver switching not "
+             "exercised symbolically. " + NOTE_COMMON, ref="4/C01"),
+    "C02": dict(
+        text="Same histories as C01; after every step the cross-reference invariants are decided: reaction<->metabolite/gene back "
+             "references, every listed object is the model's own and found under its id, reaction.genes = genes of its rule, ids unique, "
+             "DictList indices exact, groups only reference members of the model, and no stoichiometric coefficient can be zero (proved "
+             "for symbolic coefficients).",
+        note="The executable reference of the documented per-operation semantics (DESIGN table under C02) is NOT built: this check "
+             "claims the invariant half of the property only; 'does exactly what it documents' is covered indirectly through C01/C03/"
+             "C12 obligations on the same histories. Back references from reactions the user holds detached are tolerated (objects are "
+             "shared by reference in cobra). " + NOTE_COMMON, ref="4/C02"),
+    "C03": dict(
+        text="Bracketed histories: enter, up to k operations of the documented-as-reversible alphabet (26 operations x argument shapes, "
+             "membership cross-checked by an ast/docstring scan), nested enter..exit, termination normally or by the exception of a "
+             "raising variant. At every exit the full observation (content, objective and direction, LP, cross references, group "
+             "membership; list order aside) is proved equal to the one at the matching enter for all values of the symbolic inputs, the "
+             "exit must not raise and the context stack is back at its entry depth.",
+        note="Bounded: k=1 full alphabet with symbolic coefficients, all pairs of the sub-alphabet, nesting depth 2 with up to 3 steps "
+             "(thorough: all pairs of the full alphabet, 4 steps). Undo by 1/k is exact over the reals; scale factors are powers of two so "
+             "that float rounding (outside the claim) does not show. Renames are not documented as reversible and are not in the "
+             "alphabet. " + NOTE_COMMON, ref="4/C03"),
+    "C10": dict(
+        text="Identifier-escaping kernel of the SBML reader/writer only (_f_*/_f_*_rev, _escape_non_alphanum, _number_to_chr, _clip): "
+             "CrossHair explores the real functions on a symbolic str (len<=5) per condition (round trip, SId validity, reachability "
+             "twin) and vsym case-splits every string of length <=4 (thorough 5) over a class alphabet with one representative per "
+             "behavioural class of the two regexes; injectivity on all pairs of length <=2 (thorough 3).",
+        note="NOT claimed: the libsbml document layer (validity of the written document, bounds, stoichiometry, objective, gene "
+             "associations, notes, annotations, groups) - libsbml is C++ behind SWIG, no symbolic value survives a call. CrossHair's "
+             "'Not confirmed' is reported as 'no counterexample within the budget', not as exhaustive. Known finding: ids in which an "
+             "underscore meets digits. " + NOTE_COMMON, ref="4/C10",
+        technique="CrossHair symbolic strings + vsym exhaustive class-alphabet case split of the real escaping functions"),
+    "C11": dict(
+        text="Bounded symbolic execution of model_to_dict/model_from_dict and the JSON / YAML / pickle / deepcopy paths (string and "
+             "file-handle variants, sort on/off, non-default Configuration().bounds) with symbolic stoichiometry, bounds (infinities by "
+             "choice), objective coefficient and direction: loading never raises, the full observation incl. the LP is proved equal, a "
+             "second round trip is the identity.",
+        note="The text layer of json / ruamel.yaml is replaced by a structural token stub (keys to str, tuples to lists, non-finite "
+             "floats rejected like allow_nan=False) and exercised for real on witness replays only. Groups are not part of the dict "
+             "format and not compared there. Known finding: direction not stored by dict/JSON/YAML. " + NOTE_COMMON, ref="4/C11"),
+    "C12": dict(
+        text="Model.copy / deepcopy / pickle with groups, a user constraint and optionally an open context: observations proved equal, "
+             "copy passes the cross-reference invariants, no mutable object reachable from both models (object-graph walker), and after "
+             "one edit (any operation of the alphabet, or an in-place mutation of each of 14 public mutable containers) on either side "
+             "the other side is proved unchanged; Reaction.copy / Metabolite.copy / + - * / +0 / sum leave operands unchanged and return "
+             "detached objects.",
+        note="optlang's GLPK deep copy is replaced by the stub's own clone (witness replays exercise the real one). One edit after "
+             "copying (thorough: same, deeper budget). " + NOTE_COMMON, ref="4/C12"),
+    "C13": dict(
+        text="One uniform harness over 18 (thorough 24) analyses - optimize, slim_optimize, FVA variants, blocked/essential searches, "
+             "pFBA, linear MOMA, single/double deletions, loopless_solution, assess, minimal_medium, summaries, fastcc - called inside or "
+             "outside a user context on models whose symbolic bounds make them succeed, report infeasibility or raise part-way, with a "
+             "gene already knocked out, with empty or minimising objectives: the full observation (content, bounds, objective, LP, gene "
+             "states, context depth) is proved unchanged and a second call returns the same uniquely defined quantities. The analysis "
+             "harnesses of C04-C06, C09, C14, C17-C20 carry the same 'model-unchanged' obligation on every path.",
+        note="Not applicable parts: gapfill and ROOM (MILP), sampling (float numerics), production_envelope (np.linspace on symbolic "
+             "extremes); geometric_fba only in the thorough tier on T1. " + NOTE_COMMON, ref="4/C13"),
+    "C14": dict(
+        text="processes>1 branches of flux_variability_analysis and single/double deletions executed on a nondeterministic in-process "
+             "pool: each worker gets its own unpickled copy of the model and private module globals; which worker takes which chunk and "
+             "the completion order are symbolic choices, all explored within the bound; for every schedule and every permutation of the "
+             "item list the values equal the serial run's (proved for all bounds), each item alone gives the same value, the worker's "
+             "model is unchanged after every task, the caller's model is unchanged.",
+        note="NOT claimed: the OptGP sampling sentence (float numerics) and the operating system's real scheduling / pickling across "
+             "processes - the pool is a stub implementing the documented multiprocessing.Pool contract. Bounded: 2 (thorough 3) workers, "
+             "3-4 items. " + NOTE_COMMON, ref="4/C14"),
+    "C17": dict(
+        text="loopless_solution on the stub, templates with 2- and 3-cycles and every reversibility pattern reachable through the signs "
+             "of the symbolic bounds, start vector = the solver's optimum or a symbolic vector assumed feasible and optimal: result is "
+             "steady-state, in bounds, same objective value and boundary fluxes, no sign flip or growth per reaction, and no steady-state "
+             "distribution with the same boundary fluxes/objective/signs and smaller total flux exists (proved universally).",
+        note="NOT claimed: add_loopless (binary indicator variables, big-M, float SVD null space) - MILP, outside the LP contract. "
+             + NOTE_COMMON, ref="4/C17"),
+    "C18": dict(
+        text="Model.medium setter/getter and linear minimal_medium on template T5 (exchanges written in both directions, sink, demand; "
+             "SBO-annotated or heuristic classification): listed import bound = value, unlisted imports closed, export bounds and non-"
+             "exchanges proved untouched, getter = entries with positive import, set(get) identity; minimal medium None iff no medium "
+             "suffices (oracle), total import equals an independent LP minimum, returned medium is sufficient (witnessed), model unchanged.",
+        note="NOT claimed: minimize_components (binary variables). Forced-import situations where the setter must fail are a stated "
+             "precondition. " + NOTE_COMMON, ref="4/C18"),
+    "C19": dict(
+        text="find_blocked_reactions (pre-filter, FVA, masks; reaction_list shapes; open_exchanges) on T6/T3/T2 with 3-4 symbolic "
+             "reactions whose bounds span zero: reported => no steady-state distribution carries flux (universal), not reported => some "
+             "does (existential, by quantifier elimination); fastcc: kept reactions unchanged, can carry flux, no orphans, input unchanged.",
+        note="fastcc completeness depends on which optimal solution the solver returns and is evaluated on the concrete GLPK replays "
+             "of the explored paths only (known finding: reversible non-blocked reactions are dropped). Tolerance discipline: finite "
+             "symbolic bounds are 0 or at least 1e-2 in magnitude. " + NOTE_COMMON, ref="4/C19"),
+    "C20": dict(
+        text="Model, metabolite and reaction summaries generated from a symbolic Solution (fluxes symbolic, steady-state, in bounds) and "
+             "optional symbolic FVA frame through the real pandas code on object columns: every boundary reaction / reaction of the "
+             "metabolite exactly once on the side given by the sign of flux x coefficient, listed flux = flux x coefficient, objective "
+             "value, production = consumption, percentages sum to one (the only nonlinear queries), FVA ranges scaled and swapped like the "
+             "flux.",
+        note="Rendering (to_string / to_html / to_frame / _repr_html_) formats floats and is exercised on the concrete witness of every "
+             "explored path class, not symbolically. Fluxes are 0 or at least 1e-3 in magnitude (display cutoff discipline). "
+             + NOTE_COMMON, ref="4/C20"),
+})
+
 NA = {
     "C16": "samplers are float64 numpy linear algebra (SVD null space, data-dependent products, re-projection) driven by a "
            "PRNG; no symbolic value survives them and re-implementing them would not be executing the real code "
@@ -118,7 +225,9 @@ def main():
                    baseline_off_cmd="cd /repo && /venv/bin/python -m pytest -ra -q -p no:cacheprovider --timeout=900 "
                                     "--continue-on-collection-errors",
                    source_commits=[], add_only=True),
-        engines=[dict(name="vsym", path="vlib/vsym.py", serves_properties=sorted(CHECKS),
+        engines=[dict(name="crosshair", path="crosshair/c10_ids.py", serves_properties=["C10"],
+                      kind_free_text="CrossHair 0.0.110 symbolic execution of the id escaping functions on a symbolic str"),
+                 dict(name="vsym", path="vlib/vsym.py", serves_properties=sorted(CHECKS),
                       kind_free_text="dynamic symbolic execution of real Python on z3: proxy values, exhaustive "
                                      "re-execution with decision prefixes, quantifier elimination for LP feasibility forks"),
                  dict(name="symlp", path="vlib/symlp.py", serves_properties=sorted(CHECKS),
